@@ -363,7 +363,7 @@ def run(tier, seed):
                 items.append(('boundary', ri, has_addr, pg, das[i:i + 64], seed))
     allp = list(range(1 << 18))
     step = 1 << 12
-    for ri in ([1] if tier == 'quick' else [1, 3, 2]):
+    for ri in ([1] if tier == 'quick' else list(range(len(RESP)))):
         for i in range(0, 1 << 18, step):
             items.append(('all_pgns', ri, True, allp[i:i + step], [0x20, 255] if tier == 'quick' else [0x20, 0x21, 0x33, 255], seed))
     items.append(('dynamic', seed))
